@@ -265,6 +265,11 @@ def _expect_file(c, obs):
     # what exists, decided from the layout (the directory tree is gone by now): relative to start/ or to cwd/
     base = full if os.path.isabs(full) else os.path.join(root, "cwd", full)
     rel = os.path.relpath(os.path.normpath(base), root)
+    if rel == ".." or rel.startswith("../"):
+        # the path leaves the scratch tree (e.g. start directory ".." with the value ".."): what exists out there (/tmp, /) is not
+        # part of the layout this oracle knows -- no opinion on the existence mode; the model/implementation comparison, which
+        # works from os.path's own answers, still covers the case
+        return None if c["exists"] is not None else ("ok", full)
     files = {"start/a.txt", "start/sub/b.txt", "start/both.txt", "cwd/decoy-only.txt", "cwd/both.txt", "cwd/missing.txt", "home/home.txt",
              "Up/a.txt", "Up/sub/b.txt", "x.json", "start/.hidden.json", "start/..x.json", "start/a", "start/.../a", "cwd/sub/b.txt"}
     dirs = {"start", "start/sub", "cwd", "cwd/sub", "home", ".", "Up", "Up/sub", "start/..."}
